@@ -251,7 +251,13 @@ impl Scenario for FaultScen {
             while c < calls {
                 for f in [Fault::Eintr(1), Fault::Eintr(3), Fault::Err(((c + plan.run as u32) % 5) as u8)] {
                     let mut s = base_st.clone();
-                    s.faults.push(FaultAt { call: c, fault: f });
+                    // relative to a Pending planned for the same call the hard fault comes
+                    // after it (even call index) or before it (odd): both orders occur
+                    if c % 2 == 0 {
+                        s.faults.push(FaultAt { call: c, fault: f });
+                    } else {
+                        s.faults.insert(0, FaultAt { call: c, fault: f });
+                    }
                     s.faults.sort_by_key(|f| f.call);
                     variants.push(s);
                 }
